@@ -2,7 +2,11 @@ package props
 
 import (
 	"context"
+	"encoding/json"
 	"fmt"
+	"github.com/gorilla/websocket"
+	"net/http"
+	"net/http/httptest"
 	"strings"
 	"sync"
 	"time"
@@ -72,6 +76,10 @@ func (c18) Plan(tier string, seed int64) []core.Scenario {
 	}
 	// the peer has stopped reading: a large request is stuck in write(2) when the closer is invoked
 	out = append(out, core.Sc("stalled-write").WithN("mb", 32))
+	// a foreign server answers a channel-returning call with something that is not a channel id
+	for i := 0; i < 3; i++ {
+		out = append(out, core.Sc("foreign-server").WithN("answer", i))
+	}
 	// a subscription with tens of thousands of unread values when the closer is invoked
 	out = append(out, core.Sc("backlog").WithN("n", 20000).WithN("how", 0), core.Sc("backlog").WithN("n", 17000).WithN("how", 1))
 	if tier == "thorough" {
@@ -98,6 +106,8 @@ func (p c18) Run(sc core.Scenario) core.Result {
 		p.stalledWrite(sc, r)
 	} else if sc.Kind == "backlog" {
 		p.backlog(sc, r)
+	} else if sc.Kind == "foreign-server" {
+		p.foreignServer(sc, r)
 	} else {
 		p.closeAt(sc, r)
 	}
@@ -468,4 +478,78 @@ func (c18) backlog(sc core.Scenario, r *core.R) {
 	r.Obs("backlog_values", int64(g.n()))
 	r.Sig(core.Log.Signature())
 	r.Sample(map[string]interface{}{"scenario": where, "received_after_close": g.n()})
+}
+
+// foreignServer: the peer is not this library's server: it answers a channel-returning call with a result
+// that is not a channel id (a string subscription id, an object, a negative number) and plain calls normally.
+// Whatever the client makes of that answer, closing it releases every call.
+func (c18) foreignServer(sc core.Scenario, r *core.R) {
+	answer := []string{`"sub-0xabc"`, `{"subscription":7}`, `-1`}[sc.I("answer")]
+	up := websocket.Upgrader{CheckOrigin: func(*http.Request) bool { return true }}
+	ts := httptest.NewServer(http.HandlerFunc(func(w http.ResponseWriter, rq *http.Request) {
+		conn, err := up.Upgrade(w, rq, nil)
+		if err != nil {
+			return
+		}
+		defer conn.Close()
+		for {
+			_, msg, err := conn.ReadMessage()
+			if err != nil {
+				return
+			}
+			var f struct {
+				ID     json.RawMessage `json:"id"`
+				Method string          `json:"method"`
+			}
+			if json.Unmarshal(msg, &f) != nil || f.ID == nil {
+				continue
+			}
+			res := `"pong"`
+			if f.Method == "S.Sub" {
+				res = answer
+			}
+			conn.WriteMessage(websocket.TextMessage, []byte(fmt.Sprintf(`{"jsonrpc":"2.0","id":%s,"result":%s}`, f.ID, res)))
+		}
+	}))
+	defer ts.Close()
+	var cl svc.Client
+	closer, err := jsonrpc.NewMergeClient(context.Background(), "ws://"+ts.Listener.Addr().String(), "S", []interface{}{&cl}, nil, jsonrpc.WithNoReconnect())
+	if err != nil {
+		r.Inconclusive("client: %v", err)
+		return
+	}
+	bg := context.Background()
+	var subs []*Outcome
+	for i := 0; i < 3; i++ {
+		t := Tok("s")
+		subs = append(subs, Go(t, func() (string, error) {
+			ch, err := cl.Sub(bg, t, 3, 0)
+			if err == nil && ch != nil {
+				for range ch {
+				}
+			}
+			return "", err
+		}))
+	}
+	pt := Tok("p")
+	plain := Go(pt, func() (string, error) { return cl.Echo(bg, pt, "") })
+	if !plain.Wait(core.Grace) {
+		r.Inconclusive("the fake server did not answer a plain call")
+	}
+	time.Sleep(100 * time.Millisecond)
+	closed := make(chan struct{})
+	go func() { closer(); close(closed) }()
+	where := fmt.Sprintf("peer answered channel-returning calls with %s, then the client was closed", answer)
+	if !core.WaitCh(closed, core.Grace) {
+		r.Violate("closer-hang", "%s: the closer did not return", where)
+	}
+	for _, o := range subs {
+		if !o.Wait(core.Grace) {
+			r.Violate("call-blocked-after-close", "%s: the channel-returning call is still blocked after the closer returned", where)
+			break
+		}
+	}
+	r.Key("foreign-server "+answer, true)
+	r.Obs("calls", 4)
+	r.Sample(map[string]interface{}{"scenario": where})
 }
